@@ -285,6 +285,148 @@ M.contract(P_COMBI + ':_SequenceOfOperandsAdv.primitive',
                'model-freezer-passed-on': lambda self, result: result._model_freezer is self._model_freezer,
            }, raises_only=())
 
+# --- `|`: the sequence of string transformers through the same layers, and its application
+
+from exactly_lib.impls.types.string_transformer.impl import sequence as st_sequence, sequence_sdv as st_sequence_sdv
+from exactly_lib.impls.types.string_transformer.impl.identity import IdentityStringTransformer
+from exactly_lib.type_val_deps.types.string_transformer.sdv import StringTransformerSdv
+from exactly_lib.type_val_deps.types.string_transformer.ddv import StringTransformerDdv
+from exactly_lib.type_val_deps.types.string_transformer.ddvs import StringTransformerConstantDdv
+from exactly_lib.type_val_deps.dep_variants.adv.app_env_dep_val import ApplicationEnvironmentDependentValue
+from exactly_lib.type_val_prims.string_transformer import StringTransformer
+
+P_SEQ = 'exactly_lib.impls.types.string_transformer.impl.sequence'
+
+
+class TransformerSdvI(Interface):
+    target_class = StringTransformerSdv
+    attrs = {'origin': Int, 'references': Any_}
+    methods = {'resolve': Method(model=_image(lambda: TransformerDdvI, '.resolve()'))}
+
+
+class TransformerDdvI(Interface):
+    target_class = StringTransformerDdv
+    attrs = {'origin': Int, 'validator': Any_}
+    methods = {'value_of_any_dependency': Method(model=_image(lambda: TransformerAdvI, '.value_of_any_dependency()'))}
+
+
+class TransformerAdvI(Interface):
+    target_class = ApplicationEnvironmentDependentValue
+    attrs = {'origin': Int}
+    methods = {'primitive': Method(model=_image(lambda: TransformerI, '.primitive()'))}
+
+
+def _apply_transformation(interp, self, args, kwargs):
+    """Ghost stamps say how a text came about: the text given to the sequence has stamp 0; applying the
+    transformation of operand number j to a text with stamp j gives a text with stamp j + 1, applying it
+    to any other text gives a text with stamp -1 (which no application turns into a valid one again).
+    So `stamp == n` means: made by applying operands 0 .. n-1, each to the result of the one before."""
+    r = new_opaque(interp, TextI, 'transformed-text')
+    assume_pred(interp, _stamped, self, args[0], r)
+    return r
+
+
+def _stamped(fn, text, result):
+    return result.stamp == (fn.step + 1 if text.stamp == fn.step else -1)
+
+
+class TextI(Interface):
+    attrs = {'stamp': Int}
+
+
+class TransformationI(Interface):
+    """the bound method `transform` of a string transformer; `step`: its number among the transformations
+    that are applied (ghost), `origin`: the operand it belongs to"""
+    attrs = {'origin': Int, 'step': Int}
+    methods = {'__call__': Method(model=_apply_transformation)}
+
+
+class TransformerI(Interface):
+    target_class = StringTransformer
+    attrs = {'origin': Int, 'is_identity_transformer': Bool, 'transform': Iface(TransformationI)}
+    # the transformation of an operand is that operand's
+    invariant = staticmethod(lambda self: self.transform.origin == self.origin)
+
+
+M.contract('exactly_lib.impls.types.string_transformer.impl.sequence_sdv:StringTransformerSequenceSdv.resolve',
+           params=dict(self=Inst(st_sequence_sdv.StringTransformerSequenceSdv,
+                                 transformers=ListOf(Iface(TransformerSdvI)), _references=Any_), symbols=Any_),
+           ensures={
+               'no operand: the identity': lambda self, result:
+               len(self.transformers) != 0
+               or (type(result) is StringTransformerConstantDdv and type(result._value) is IdentityStringTransformer),
+               'one operand: its image': lambda self, result:
+               len(self.transformers) != 1 or result.origin == self.transformers[0].origin,
+               'operands: same length, same order, each the image of its source': lambda self, result:
+               len(self.transformers) < 2
+               or (type(result) is st_sequence.StringTransformerSequenceDdv
+                   and image_in_order(result._transformers, self.transformers)),
+           }, raises_only=())
+
+M.contract(P_SEQ + ':StringTransformerSequenceDdv.value_of_any_dependency',
+           params=dict(self=Inst(st_sequence.StringTransformerSequenceDdv,
+                                 _transformers=ListOf(Iface(TransformerDdvI)), _validator=Any_), tcds=Any_),
+           ensures={
+               'operands: same length, same order, each the image of its source': lambda self, result:
+               type(result) is st_sequence._StringTransformerSequenceAdv
+               and image_in_order(result._transformers, self._transformers),
+           }, raises_only=())
+
+M.contract(P_SEQ + ':_StringTransformerSequenceAdv.primitive',
+           params=dict(self=Inst(st_sequence._StringTransformerSequenceAdv,
+                                 _transformers=ListOf(Iface(TransformerAdvI))), environment=Any_),
+           ensures={
+               'operands: same length, same order, each the image of its source': lambda self, result:
+               type(result) is st_sequence.SequenceStringTransformer
+               and image_in_order(result._transformers, self._transformers),
+           }, raises_only=())
+
+M.contract(P_SEQ + ':SequenceStringTransformer.__init__',
+           params=dict(self=Inst(st_sequence.SequenceStringTransformer), transformers=ListOf(Iface(TransformerI))),
+           # ghost labelling: operand number j has origin j
+           requires=lambda transformers: forall_range(0, len(transformers), lambda j: transformers[j].origin == j),
+           inline=True,
+           ensures={
+               'keeps the operands in order': lambda self, transformers:
+               image_in_order(self._transformers, transformers),
+               'the transformations to apply: not more than operands': lambda self, transformers:
+               len(self._non_identity_transformer_functions) <= len(transformers),
+               'the transformations to apply are transformations of non-identity operands': lambda self, transformers:
+               forall_range(0, len(self._non_identity_transformer_functions), lambda k:
+               self._non_identity_transformer_functions[k].origin >= 0
+               and self._non_identity_transformer_functions[k].origin < len(transformers)
+               and not transformers[self._non_identity_transformer_functions[k].origin].is_identity_transformer),
+               '... in the order of the operands': lambda self:
+               forall_range(0, len(self._non_identity_transformer_functions) - 1, lambda k:
+               self._non_identity_transformer_functions[k].origin
+               < self._non_identity_transformer_functions[k + 1].origin),
+               '... every non-identity operand among them': lambda self, transformers:
+               forall_range(0, len(transformers), lambda j:
+               transformers[j].is_identity_transformer
+               or exists_range(0, len(self._non_identity_transformer_functions), lambda k:
+               self._non_identity_transformer_functions[k].origin == j)),
+               'identity iff nothing to apply': lambda self:
+               self._is_identity == (len(self._non_identity_transformer_functions) == 0),
+           }, raises_only=())
+
+M.contract(P_SEQ + ':SequenceStringTransformer.transform',
+           params=dict(self=Inst(st_sequence.SequenceStringTransformer, _transformers=Any_, _is_identity=Bool,
+                                 _non_identity_transformer_functions=ListOf(Iface(TransformationI)),
+                                 _structure_renderer=Any_),
+                       model=Iface(TextI)),
+           # ghost labelling: the given text has stamp 0, the k-th transformation to apply is step k
+           requires=lambda self, model: model.stamp == 0 and forall_range(
+               0, len(self._non_identity_transformer_functions),
+               lambda k: self._non_identity_transformer_functions[k].step == k),
+           ensures={
+               'left to right: every transformation applied, in order, each to the result of the one before':
+                   lambda self, result: result.stamp == len(self._non_identity_transformer_functions),
+           }, raises_only=())
+
+M.loop(P_SEQ + ':SequenceStringTransformer.transform', 0,
+       invariant=lambda _i, model: model.stamp == _i,
+       modifies=dict(model=Iface(TextI), transformer='local'))
+
 # ============================================================================== (a) grammar tables
 # The operator tokens, their precedence order and what they build are read from the REAL grammar
 # objects of the six host types (the objects the parsers are made from) and compared with the
